@@ -82,7 +82,7 @@ int main(int argc, char **argv) {
         int quick = argv[2][0] == 'q'; vt_seed(strtoull(argv[3], 0, 10) + 10); vt_open(argv[4]);
         for (int res = 3; res <= 15; res++) {
             CellVec cv = {0};
-            cv_pentagon_strata(&cv, res, quick ? 2 : 3); cv_random_cells(&cv, res, quick ? 10 : 60); cv_seam_cells(&cv, res, quick ? 1 : 4); cv_sparse_digit_sample(&cv, res, quick ? 6 : 40); cv_polar_cells(&cv, res); cv_antimeridian_cells(&cv, res, quick ? 1 : 6);
+            cv_pentagon_strata(&cv, res, quick ? 2 : 3); cv_random_cells(&cv, res, quick ? 10 : 60); cv_seam_cells(&cv, res, quick ? 1 : 4); cv_sparse_digit_sample(&cv, res, quick ? 6 : 40); cv_coarse_boundary_sample(&cv, res, quick ? 8 : 40); cv_polar_cells(&cv, res); cv_antimeridian_cells(&cv, res, quick ? 1 : 6);
             for (int64_t i = 0; i < cv.n; i++) {
                 if (quick && (i % 2) && (res % 3)) continue;
                 ev_edge_nbhd(cv.v[i]); ev_vertex_nbhd(cv.v[i]);
